@@ -50,7 +50,8 @@ def sig(v):
 
 
 def mk_set(elements):
-    els = list(elements)
+    # strings are compared after NFC normalisation (that is what == does), so canonically equivalent spellings are one element
+    els = [("s", unicodedata.normalize("NFC", e[1])) if e[0] == "s" else e for e in elements]
     if not els:
         raise Undefined("empty set")
     if len({sig(e) for e in els}) != 1:
@@ -173,6 +174,12 @@ def attribute(x, name):
         raise Undefined("attribute %s of %s" % (name, x[0]))
     if name == "count":
         return ("r", Fraction(len(x[1])))
+    if name in ("min", "max") and elem_kind(x) == "set":
+        # sets are ordered by inclusion, a partial order: the least / greatest element is the one comparable to all others
+        for c in x[1]:
+            if all((c[1] <= o[1]) if name == "min" else (c[1] >= o[1]) for o in x[1]):
+                return c
+        raise Undefined("the set has no %s element under inclusion" % ("least" if name == "min" else "greatest"))
     if name in ("min", "max"):
         if elem_kind(x) != "r":
             if len(x[1]) == 1:
